@@ -422,22 +422,30 @@ impl<T: Send> SchedulerFuture<T> {
 
 impl<T: Send> Drop for SchedulerFuture<T> {
     fn drop(&mut self) {
-        /* -- no need to reschedule manually any more, the queue will wake itself up
-        // Reschedule the queue in the background if we're draining the queue
+        // If this future is dropped while the queue is waiting for it to be polled again, nothing else will ever poll it:
+        // hand the queue back so that it carries on in the background
         if self.draining {
-            {
-                // The core should be in the 'waiting for poll' state
+            let reschedule = {
                 let mut core = self.queue.core.lock().expect("JobQueue core lock");
-                debug_assert!(match core.state { QueueState::WaitingForPoll(_) => true, _ => false });
 
-                // Core is now idle
-                core.state = QueueState::Idle;
+                match core.state {
+                    QueueState::WaitingForPoll(owner_id)    => {
+                        if owner_id == self.id {
+                            core.state = QueueState::Idle;
+                            true
+                        } else {
+                            false
+                        }
+                    },
+
+                    _                                       => false
+                }
+            };
+
+            if reschedule {
+                self.scheduler.core.reschedule_queue(&self.queue, Arc::clone(&self.scheduler.core));
             }
-
-            // Reschedule the queue
-            self.scheduler.core.reschedule_queue(&self.queue, Arc::clone(&self.scheduler.core));
         }
-        */
     }
 }
 
